@@ -6,6 +6,7 @@ package faultio
 
 import (
 	"errors"
+	"fmt"
 	"io"
 	"unicode/utf8"
 
@@ -85,11 +86,12 @@ type Reader struct {
 	Off   int
 	Yield func(site string) // scheduler seam (may be nil)
 
-	sticky     error
-	zeros      int
-	emptyCalls int
-	pendingEOF int // for EOFAfterZero: 1 = a (0,nil) is still due
-	Reads      int
+	sticky      error
+	afterSticky int
+	zeros       int
+	emptyCalls  int
+	pendingEOF  int // for EOFAfterZero: 1 = a (0,nil) is still due
+	Reads       int
 	// ErrReturned is the error (incl. io.EOF) the reader has handed out, if any.
 	ErrReturned error
 }
@@ -136,6 +138,9 @@ func (r *Reader) Read(p []byte) (int, error) {
 		r.Yield("Read")
 	}
 	if r.sticky != nil {
+		if r.afterSticky++; r.afterSticky > 20000 {
+			panic(core.Abort{V: &core.Violation{Class: r.Ctx.Prop + "/livelock-after-error", Msg: fmt.Sprintf("Read called more than 20000 times after the reader had returned %v", r.sticky)}})
+		}
 		if r.sticky == io.EOF {
 			r.Ctx.Count("reads_after_eof")
 		} else {
